@@ -402,13 +402,13 @@ def gen_pack_case(rng, idx, quick, flavour="gensquashfs"):
     case = {"id": idx, "B": B, "paths": paths, "contents": contents, "comp": rng.choice(COMPS), "tool": flavour,
             "notail": rng.random() < 0.35, "export": rng.random() < 0.4, "devblk": rng.choice([4096, 4096, 1024, 8192]),
             "jobs": 1 if quick or rng.random() < 0.8 else rng.choice([2, 4])}
-    if flavour == "gensquashfs" and rng.random() < 0.85:
+    if flavour in ("gensquashfs", "packdir") and rng.random() < 0.85:
         case["sortfile"] = gen_sortfile(rng, paths, valid_only=True)
     else:
         case["sortfile"] = None
     # targeted: a later twin of an earlier file carries a directive (the situations the directives exist for)
     plain = [i for i, p in enumerate(paths) if plain_ok(p) and b'"' not in p]
-    if flavour == "gensquashfs" and len(plain) >= 2 and rng.random() < 0.55:
+    if flavour in ("gensquashfs", "packdir") and len(plain) >= 2 and rng.random() < 0.55:
         i, j = rng.sample(plain, 2)
         kind = rng.random()
         base = contents[i] if (len(contents[i]) and rng.random() < 0.6) else gen_content(rng, B, [])
@@ -445,6 +445,19 @@ def build_image(env, case, d):
         opts.append("-T")
     if case["export"]:
         opts.append("-e")
+    if case["tool"] == "packdir":                                  # scan a directory instead of reading a pack file
+        root = os.fsencode(str(d / "root"))
+        for p, c in zip(case["paths"], case["contents"]):
+            full = os.path.join(root, p)
+            os.makedirs(os.path.dirname(full), exist_ok=True)
+            with open(full, "wb") as f:
+                f.write(c)
+        cmd = [env.gen, "-D", d / "root"] + opts
+        if case["sortfile"] is not None:
+            (d / "sort.txt").write_bytes(case["sortfile"])
+            cmd += ["-S", d / "sort.txt"]
+        r = env.tool(cmd + [img])
+        return r.returncode, r.stderr, img
     if case["tool"] == "gensquashfs":
         lines = []
         for i, (p, c) in enumerate(zip(case["paths"], case["contents"])):
@@ -635,7 +648,7 @@ def run_pack_case(env, case, scratch):
         real = decode_image(env, case, img)
         case["base"] = real["base"]
         # --- packing order and flags -----------------------------------------------------------------------
-        if case["tool"] == "gensquashfs":
+        if case["tool"] in ("gensquashfs", "packdir"):
             line = env.run_harness(["sort %d %s %s" % (len(case["paths"]), " ".join(hx(p) for p in case["paths"]),
                                                        hx(case["sortfile"] or b""))])[0]
             init = [unhx(t) for t in line.split(" ; ")[0].split()[1:]]
@@ -852,46 +865,44 @@ def corpus_cases():
 
 
 # ------------------------------------------------------------------------------------------------ run
-def classify_and_report(ctx, case, res, summary):
-    """turn one case's result into violations / known findings (main thread)"""
+def judge(case, res, summary):
+    """one case's result -> list of (key, what, found_input); D-keys are known-finding candidates"""
+    out = []
     cid = case.get("name") or ("case %d" % case["id"])
-    replay = {"kind": "pack", "case": {k: (v.hex() if isinstance(v, bytes) else
-                                           [x.hex() for x in v] if isinstance(v, list) and v and isinstance(v[0], bytes) else v)
-                                       for k, v in case.items()}}
     for kind, what in res["problems"]:
         if kind == "generator":
             summary["generator_rejects"] += 1
             continue
         # an undecodable image / failing tool can be the consequence of D24 (stray block word in the inode table)
         if res.get("d24") or (kind in ("undecodable", "tool-failed", "decode") and case_may_hit_d24(case)):
-            report_once(ctx, KEY_D24, "nosparse all-zero tail alone in its fragment block: %s" % what, replay)
+            out.append((KEY_D24, "nosparse all-zero tail alone in its fragment block: %s" % what, True))
             summary["d24"] += 1
             continue
-        ctx.violation("%s:%s" % (kind, vlib.sha(json.dumps(replay, sort_keys=True))[:12]), "%s: %s" % (cid, what), replay)
+        out.append(("%s:%s" % (kind, case_hash(case)), "%s: %s" % (cid, what), True))
     if "matched" not in res:
-        return
+        return out
     summary["compared"] += 1
     clause_bad = list(res["effects"]) + [("directives_preserve_content", p) for p in res["content_bad"]] \
-        + [("directives_preserve_content(readFile)", p) for p in res.get("readback_bad", [])] \
+        + [("directives_preserve_content(readFile)", p) for p in (res.get("readback_bad") or [])] \
         + [("layout_follows_order", p) for p in res["order_bad"]] + [("export_table_ok", e) for e in res["export_bad"]]
     if res["matched"] == ("fix", "fix") and not clause_bad:
         summary["agree"] += 1
-        return
+        return out
     # known findings: the disagreement is the one the model of the pinned code predicts
     m = res["matched"]
     explained = False
     if m is not None and m != ("fix", "fix"):
         if m[0] == "cur" and res["quoted"]:
-            report_once(ctx, KEY_D26, "sort file with a quoted name: the packed layout follows the mis-decoded name", replay)
+            out.append((KEY_D26, "sort file with a quoted name: the packed layout follows the mis-decoded name", True))
             summary["d26"] += 1
             explained = True
         if m[1] == "cur" and res["d24"]:
-            report_once(ctx, KEY_D24, "nosparse all-zero tail alone in its fragment block is flagged sparse: fragment block not written, "
-                          "first member's inode altered: %s" % "; ".join(res["spec_diffs"])[:400], replay)
+            out.append((KEY_D24, "nosparse all-zero tail alone in its fragment block is flagged sparse: fragment block not written, "
+                        "first member's inode altered: %s" % "; ".join(res["spec_diffs"])[:400], True))
             summary["d24"] += 1
             explained = True
         if m[1] == "cur" and res["d27"]:
-            report_once(ctx, KEY_D27, "fragment deduplication ignores DONT_COMPRESS: %s" % "; ".join(res["spec_diffs"])[:400], replay)
+            out.append((KEY_D27, "fragment deduplication ignores DONT_COMPRESS: %s" % "; ".join(res["spec_diffs"])[:400], True))
             summary["d27"] += 1
             explained = True
         if explained:
@@ -901,13 +912,31 @@ def classify_and_report(ctx, case, res, summary):
             clause_bad = [c for c in clause_bad if c[0] not in allowed]
     if clause_bad:
         summary["clause_bad"] += 1
-        ctx.violation("clause:%s:%s" % (clause_bad[0][0], vlib.sha(json.dumps(replay, sort_keys=True))[:12]),
-                      "%s: the real layout violates %s" % (cid, clause_bad[:6]), dict(replay, clauses=[str(c) for c in clause_bad]))
+        out.append(("clause:%s:%s" % (clause_bad[0][0], case_hash(case)), "%s: the real layout violates %s" % (cid, clause_bad[:6]), True))
     elif not explained:
         summary["corr_bad"] += 1
-        ctx.violation("pack-corr:" + vlib.sha(json.dumps(replay, sort_keys=True))[:12],
-                      "%s: layout differs from specPack but no directive clause fails: %s" % (cid, "; ".join(res["spec_diffs"])[:600]),
-                      dict(replay, diffs=res["spec_diffs"]), found_input=False)
+        out.append(("pack-corr:" + case_hash(case), "%s: layout differs from specPack but no directive clause fails: %s" % (
+            cid, "; ".join(res["spec_diffs"])[:600]), False))
+    return out
+
+
+def case_replay(case):
+    return {"kind": "pack", "case": {k: (v.hex() if isinstance(v, bytes) else
+                                         [x.hex() for x in v] if isinstance(v, list) and v and isinstance(v[0], bytes) else v)
+                                     for k, v in case.items()}}
+
+
+def case_hash(case):
+    return vlib.sha(json.dumps(case_replay(case), sort_keys=True))[:12]
+
+
+def classify_and_report(ctx, case, res, summary):
+    """turn one case's result into violations / known findings (main thread)"""
+    for key, what, found in judge(case, res, summary):
+        if key in (KEY_D24, KEY_D26, KEY_D27):
+            report_once(ctx, key, what, case_replay(case))
+        else:
+            ctx.violation(key, what, dict(case_replay(case), diffs=res.get("spec_diffs")), found_input=found)
 
 
 def case_may_hit_d24(case):
@@ -970,7 +999,7 @@ def run(ctx):
     ncorpus_b = len(cases_b)
     ngen = 240 if quick else 2500
     for i in range(ngen):
-        cases_b.append(gen_pack_case(ctx.rng, i, quick, "tar2sqfs" if i % 6 == 5 else "gensquashfs"))
+        cases_b.append(gen_pack_case(ctx.rng, i, quick, "tar2sqfs" if i % 6 == 5 else "packdir" if i % 6 == 4 else "gensquashfs"))
     summary = {k: 0 for k in ("compared", "agree", "d24", "d26", "d27", "clause_bad", "corr_bad", "generator_rejects")}
     hist = {"files": 0, "blocks": 0, "frags": 0, "shared": 0, "sparse_files": 0, "area_bytes": 0, "flagsets": {}, "comp": {}, "B": {},
             "notail": 0, "export": 0, "tar2sqfs": 0, "with_sortfile": 0}
@@ -990,6 +1019,7 @@ def run(ctx):
             hist["notail"] += 1 if c["notail"] else 0
             hist["export"] += 1 if c["export"] else 0
             hist["tar2sqfs"] += 1 if c["tool"] == "tar2sqfs" else 0
+            hist["packdir"] = hist.get("packdir", 0) + (1 if c["tool"] == "packdir" else 0)
             hist["with_sortfile"] += 1 if c.get("sortfile") else 0
             import shutil
             shutil.rmtree(ctx.scratch / ("c%d" % c["id"]), ignore_errors=True)
@@ -1053,8 +1083,12 @@ def replay(ctx, path):
         res = run_pack_case(env, case, ctx.scratch)
         for k in ("problems", "matched", "spec_diffs", "effects", "content_bad", "readback_bad", "order_bad", "export_bad", "d24", "d27"):
             print("%-13s: %s" % (k, res.get(k)))
-        bad = res["problems"] or res.get("matched") != ("fix", "fix") or res.get("effects") or res.get("content_bad") \
-            or res.get("readback_bad") or res.get("order_bad") or res.get("export_bad")
-        return 1 if bad else 0
+        summary = {k: 0 for k in ("compared", "agree", "d24", "d26", "d27", "clause_bad", "corr_bad", "generator_rejects")}
+        verdicts = judge(case, res, summary)
+        fresh = [v for v in verdicts if ctx.known_finding(v[0]) is None]
+        for key, what, found in verdicts:
+            print("%s %s: %s" % ("KNOWN-FINDING" if ctx.known_finding(key) else "VIOLATION", key, what[:300]))
+        print("reproduces" if fresh else "does not reproduce")
+        return 1 if fresh else 0
     print("replay file names a broken obligation, no input to replay:", json.dumps(rp)[:500])
     return 1
